@@ -338,6 +338,12 @@ def run_check(pid: str, tier: str, seed: int) -> int:
                 stats.merge(st)
         violations.extend(stats.violations)
 
+    # 2b. optional coverage-guided campaign (atheris/libFuzzer driving the same Hypothesis strategy)
+    fuzz_info = None
+    fz = getattr(prop, 'fuzz', {}).get(tier)
+    if fz and not violations and not stats.harness_errors:
+        fuzz_info = _coverage_guided(pid, tier, seed, fz, stats, violations)
+
     # 3. report
     rc = 0
     for key, n in sorted(stats.known.items()):
@@ -369,7 +375,7 @@ def run_check(pid: str, tier: str, seed: int) -> int:
         print(f'HARNESS-ERROR vacuity guard: classes never generated: {missing}', file=sys.stderr)
         rc = 2
 
-    _write_evidence(prop, tier, seed, stats, len(seen), time.time() - t0, open_keys, fixed)
+    _write_evidence(prop, tier, seed, stats, len(seen), time.time() - t0, open_keys, fixed, fuzz_info)
     print(f'{pid} tier={tier} seed={seed} evaluations={stats.evaluations} '
           f'nontrivial={len(stats.nontrivial)} known={sum(stats.known.values())} '
           f'violations={len(seen)} wall={time.time() - t0:.1f}s rc={rc}', flush=True)
@@ -413,8 +419,57 @@ def _regress_worker(pid: str) -> dict:
     return {'stats': stats, 'lines': lines}
 
 
+def _coverage_guided(pid: str, tier: str, seed: int, fz: dict, stats: Stats, violations: list) -> dict:
+    """Run vkit.fuzz_atheris in parallel subprocesses; merge counts; collect a violation if one was found.
+    Trouble with the fuzzing engine itself is recorded as inconclusive, never as a violation."""
+    import shutil
+    import subprocess
+    import tempfile
+    info = {'engine': 'atheris (libFuzzer) + hypothesis fuzz_one_input, kfac instrumented for coverage', 'processes': fz.get('procs', 4),
+            'runs': 0, 'distinct_nontrivial': 0, 'status': 'ok'}
+    if not os.path.isdir(os.path.join(VERIF, '.deps', 'atheris')):
+        info['status'] = 'skipped: atheris not installed in .deps (MANIFEST.setup_cmd installs it)'
+        return info
+    base = tempfile.mkdtemp(prefix='fuzz_', dir='/dev/shm' if os.path.isdir('/dev/shm') else None)
+    procs = []
+    try:
+        for i in range(fz.get('procs', 4)):
+            out = os.path.join(base, str(i))
+            cmd = [sys.executable, '-m', 'vkit.fuzz_atheris', pid, tier, out, f'-runs={fz["runs"]}', f'-max_total_time={fz["max_time"]}',
+                   f'-seed={seed * 100 + i + 1}', '-print_final_stats=0', '-verbosity=0', '-max_len=8192', '-len_control=0']
+            procs.append((out, subprocess.Popen(cmd, cwd=VERIF, stdout=subprocess.DEVNULL, stderr=subprocess.DEVNULL, env=dict(os.environ, PYTHONWARNINGS='ignore'))))
+        digests = set()
+        for out, p in procs:
+            try:
+                p.wait(timeout=fz['max_time'] * 3 + 120)
+            except subprocess.TimeoutExpired:
+                p.kill()
+                info['status'] = 'inconclusive: a fuzzing process had to be killed'
+            sp = os.path.join(out, 'stats.json')
+            if os.path.exists(sp):
+                sj = json.load(open(sp))
+                info['runs'] += sj['runs']
+                digests |= set(sj['nontrivial_digests'])
+                for k, n in sj['known'].items():
+                    stats.known[k] = stats.known.get(k, 0) + n
+            else:
+                info['status'] = 'inconclusive: a fuzzing process wrote no statistics'
+            vp = os.path.join(out, 'violation.json')
+            if os.path.exists(vp):
+                v = json.load(open(vp))
+                violations.append({'case': v['case'], 'msg': '[coverage-guided] ' + v['msg'], 'key': v['key']})
+        new = digests - stats.nontrivial
+        info['distinct_nontrivial'] = len(digests)
+        info['distinct_nontrivial_not_seen_by_random_search'] = len(new)
+        stats.evaluations += info['runs']
+        stats.nontrivial |= digests
+    finally:
+        shutil.rmtree(base, ignore_errors=True)
+    return info
+
+
 def _write_evidence(prop: Prop, tier: str, seed: int, stats: Stats, nviol: int, wall: float,
-                    open_keys: dict, fixed: list) -> None:
+                    open_keys: dict, fixed: list, fuzz_info: dict | None = None) -> None:
     os.makedirs(EVIDENCE_DIR, exist_ok=True)
     samples = sorted(stats.samples, key=lambda s: s[0])
     picked = []
@@ -434,6 +489,8 @@ def _write_evidence(prop: Prop, tier: str, seed: int, stats: Stats, nviol: int, 
         'open_known_findings': sorted(open_keys),
         'fixed_findings': [f['key'] for f in fixed],
     }
+    if fuzz_info is not None:
+        coverage['coverage_guided'] = fuzz_info
     if prop.exhaustive:
         coverage['exhaustive'] = True
     try:
